@@ -73,6 +73,18 @@ func init() {
 		return retExit(st, TupleV{e.tc.BV(0, 64), IfaceV{}})
 	}
 
+	stubs["strings.Join"] = func(e *Engine, st *State, fr *Frame, fn *ssa.Function, args []Value, pos token.Pos) []exit {
+		elems := e.variadic(st, args[0])
+		sep := args[1].(StrV)
+		out := StrV{}
+		for i, x := range elems {
+			if i > 0 {
+				out = e.concat(out, sep)
+			}
+			out = e.concat(out, x.(StrV))
+		}
+		return retExit(st, out)
+	}
 	// strings.Builder: the content is kept as a StrV in the buf field (field 1)
 	stubs["(*strings.Builder).Grow"] = func(e *Engine, st *State, fr *Frame, fn *ssa.Function, args []Value, pos token.Pos) []exit {
 		return retExit(st, nil)
@@ -291,7 +303,14 @@ func (e *Engine) sprintf(st *State, fr *Frame, format string, args []Value, pos 
 
 func (e *Engine) concat(a, b StrV) StrV {
 	if a.Opaque || b.Opaque {
-		return StrV{Opaque: true, Note: "formatted"}
+		la, lb := a.MinLen, b.MinLen
+		if !a.Opaque {
+			la = len(a.B)
+		}
+		if !b.Opaque {
+			lb = len(b.B)
+		}
+		return StrV{Opaque: true, Note: "formatted", MinLen: la + lb}
 	}
 	out := make([]*Term, 0, len(a.B)+len(b.B))
 	return StrV{B: append(append(out, a.B...), b.B...)}
@@ -331,7 +350,10 @@ func (e *Engine) formatArg(st *State, fr *Frame, verb byte, arg Value, width int
 			_ = ev
 			return opaque("error text")
 		}
-		if m := e.stringMethod(iv.T); m != nil && verb != 'q' {
+		if m := e.stringMethod(iv.T); m != nil && verb != 'q' && e.opt.OpaqueNumbers && !e.isRepoFn(m) {
+			// rendering mode: String methods of standard-library types are trusted not to panic
+			return []fmtAlt{{st: st, s: StrV{Opaque: true, Note: "stdlib Stringer"}}}
+		} else if m != nil && verb != 'q' {
 			// a nil pointer receiver prints <nil>; fmt recovers panics in String methods
 			if p, ok := iv.V.(PtrV); ok && p.IsNil() {
 				return []fmtAlt{{st: st, s: e.pad(e.strConst("<nil>"), width, zero, minus)}}
@@ -358,12 +380,22 @@ func (e *Engine) formatArg(st *State, fr *Frame, verb byte, arg Value, width int
 		}
 		return opaque("string with verb " + string(verb))
 	case *Term:
+		if e.opt.OpaqueNumbers && !v.IsConst() {
+			// rendering mode: the text of numbers is not inspected, only known to be non-empty
+			return []fmtAlt{{st: st, s: StrV{Opaque: true, Note: "number", MinLen: 1}}}
+		}
 		if v.Sort.K == KBool {
 			if verb != 'v' && verb != 't' {
 				return opaque("bool verb")
 			}
 			if v.IsConst() {
 				return []fmtAlt{{st: st, s: e.pad(e.strConst(fmt.Sprint(v.C == 1)), width, zero, minus)}}
+			}
+			if width >= 5 {
+				// "true" and "false" pad to the same length: no fork
+				tt, ff := e.pad(e.strConst("true"), width, zero, minus), e.pad(e.strConst("false"), width, zero, minus)
+				m, _ := e.mergeVal(v, tt, ff)
+				return []fmtAlt{{st: st, s: m.(StrV)}}
 			}
 			var out []fmtAlt
 			for _, val := range []bool{true, false} {
@@ -404,6 +436,26 @@ func (e *Engine) formatArg(st *State, fr *Frame, verb byte, arg Value, width int
 		return out
 	}
 	return opaque(fmt.Sprintf("operand %T", iv.V))
+}
+
+func (e *Engine) isRepoFn(fn *ssa.Function) bool {
+	if fn.Pkg != nil {
+		return e.isRepoPkg(fn.Pkg)
+	}
+	if o := fn.Origin(); o != nil && o.Pkg != nil {
+		return e.isRepoPkg(o.Pkg)
+	}
+	// wrappers / bound methods: decide by the receiver's package
+	if fn.Signature.Recv() != nil {
+		t := fn.Signature.Recv().Type()
+		if p, ok := t.(*types.Pointer); ok {
+			t = p.Elem()
+		}
+		if n, ok := t.(*types.Named); ok && n.Obj().Pkg() != nil {
+			return strings.HasPrefix(n.Obj().Pkg().Path(), e.repoPrefix)
+		}
+	}
+	return false
 }
 
 func (e *Engine) stringMethod(t types.Type) *ssa.Function {
